@@ -578,11 +578,12 @@ Definition handshake_bad (c : cfg) : M :=
 (* onConnect raises.  Server (processHandshake: forward_error): failHandshake, an HTTP error response and the drop.
    Client (processHandshake: on_connect_failed): the connection is already OPEN (state set, opening-handshake timer
    cancelled, auto ping armed; onOpen is never called) and is failed with the close code found at that call site *)
+Definition client_connect_raises (c : cfg) (txt : list N) : M :=
+  upd (set_st OPEN) ;; cancel_slot TOpenHS ;;
+  whenM (0 <? autoPingInterval c) (arm_batched TAutoPing (autoPingInterval c)) ;;
+  fail_connection c code_onconnect_failed txt.
 Definition handshake_connect_raises (c : cfg) (txt : list N) : M :=
-  if is_server c then handshake_bad c
-  else upd (set_st OPEN) ;; cancel_slot TOpenHS ;;
-       whenM (0 <? autoPingInterval c) (arm_batched TAutoPing (autoPingInterval c)) ;;
-       fail_connection c code_onconnect_failed txt.
+  if is_server c then handshake_bad c else client_connect_raises c txt.
 
 (* protocol.py: onFrameEnd of a data frame: "if self.autoPingTimeoutCall and self.autoPingRestartOnAnyTraffic" for EVERY
    data frame, final or not; a final one ends the message: onMessageEnd delivers it unless failedByMe *)
